@@ -230,7 +230,9 @@ def kani_lib_for(h, workdir):
                     ("__rust_realloc(uint8_t *ptr, size_t old_size, size_t align, size_t new_size)", "new_size")):
         pat = fn + "\n{\n"
         if pat in src:
-            src = src.replace(pat, pat + f'    __CPROVER_assert({var} <= (size_t){h.alloc_limit}ul, "{ALLOC_LIMIT_MSG}");\n', 1)
+            # assert, then assume: a larger request is reported, and the oversized object itself (which CBMC
+            # could not flatten) is never built on that path
+            src = src.replace(pat, pat + f'    __KANI_assert({var} <= (size_t){h.alloc_limit}ul, "{ALLOC_LIMIT_MSG}");\n', 1)
             n += 1
     if n != 3:
         raise RuntimeError("kani_lib.c does not have the expected allocator entry points")
